@@ -11,6 +11,69 @@ from ..common import Check
 def run(chk: Check) -> None:
     qos_checks.run_prop(chk, "C08")
     qos_model.correspond(chk)
+    through_the_gateway(chk)
+
+
+def through_the_gateway(chk: Check) -> None:
+    """The same bound through the gateway's own entry point (`Engine.async_send_cmd`, what every entity of ramses_rf calls), one
+    gateway after another in this process: a command whose reply must be awaited (a schedule fragment, the change counter, a
+    fault-log entry) and is never answered is transmitted 1 + min(max_retries, 3) times and ends in an error - whatever was sent
+    before it, with whatever settings."""
+    import asyncio
+    import random
+
+    from ramses_tx.command import Command
+
+    from .. import gwrig
+
+    CTL = "01:145038"
+    rnd = random.Random(chk.seed)
+    must_wait = [f"RQ --- 18:000730 {CTL} --:------ 0404 007 00200008000100", f"RQ --- 18:000730 {CTL} --:------ 0006 001 00",
+                 f"RQ --- 18:000730 {CTL} --:------ 0418 003 000002"]
+    ordinary = [(f"RQ --- 18:000730 {CTL} --:------ 2349 001 01", f"RP --- {CTL} 18:006402 --:------ 2349 007 0107D000FFFFFF"),
+                (f"RQ --- 18:000730 {CTL} --:------ 2309 001 01", f"RP --- {CTL} 18:006402 --:------ 2309 003 0107D0")]
+    for k in range(6):
+        retries = rnd.choice((0, 1, 2, 3, 3, 5))
+        timeout = rnd.choice((20.0, 20.0, 5.0))
+        first = rnd.choice(ordinary)
+        target = rnd.choice(must_wait)
+        out: dict = {}
+
+        async def body(loop, retries=retries, timeout=timeout, first=first, target=target):
+            def responder(frame):
+                return [(0.05, first[1])] if frame[37:41] == first[0][37:41] else []
+
+            rig = gwrig.Rig(loop, responder=responder)
+            await rig.start()
+            try:
+                await rig.gwy.async_send_cmd(Command(first[0]), wait_for_reply=True, max_retries=retries, timeout=timeout)
+                out["first"] = "ok"
+            except Exception as e:  # noqa: BLE001
+                out["first"] = type(e).__name__
+            n0 = len(rig.transport.written)
+            try:
+                pkt = await rig.gwy.async_send_cmd(Command(target), wait_for_reply=True, max_retries=retries, timeout=timeout)
+                out["target"] = ("ok", str(pkt))
+            except Exception as e:  # noqa: BLE001
+                out["target"] = ("err", type(e).__name__)
+            out["tx"] = sum(1 for _t, fr in rig.transport.written[n0:] if fr[37:41] == target[37:41])
+            await rig.stop()
+
+        try:
+            gwrig.run(body)
+        except Exception as e:  # noqa: BLE001
+            chk.violation(f"gateway_api.run_died:{type(e).__name__}", f"the run itself raised {e!r}", {"op": "gateway_api"})
+            continue
+        chk.evaluations += 1
+        chk.nontrivial.add(("gateway_api", k, retries, timeout, first[0], target))
+        chk.count("gateway_api.episodes")
+        want_tx = 1 + min(retries, 3)
+        rep = {"op": "gateway_api", "first": first[0], "target": target, "max_retries": retries, "timeout": timeout, "got": out}
+        if out.get("target", ("", ""))[0] == "ok":
+            chk.violation("gateway_api.unanswered_returned_success", f"{target!r} (wait_for_reply=True) was never answered, yet async_send_cmd returned {out['target'][1][:80]!r} "
+                          f"after {out['tx']} transmission(s)", rep)
+        elif out.get("tx") != want_tx:
+            chk.violation("gateway_api.transmission_count", f"{target!r} unanswered with max_retries={retries}: {out.get('tx')} transmissions, expected {want_tx}", rep)
 
 
 def replay(chk: Check, path: str) -> int:
